@@ -117,6 +117,20 @@ def scenarios(tier):
             for sq in seqs:
                 yield {'leg': 'shared_object', 'prios': v, 't': 0, 'n_prio': n_prio, 'steps': 5,
                        'acts': [{'kind': k, 'actor': a, 't': t} for t, a, k in sq]}
+    # the population shrinks first (a system removes itself or another one), in later timesteps a new object N comes and
+    # goes again, then a further timestep: bookkeeping derived from the NUMBER of registered systems meets its past
+    for v in ([1, 0, 0, 0], [0, 0, 0], [1, 1, 0, 0]) if tier == 'quick' else ([1, 0, 0, 0], [0, 0, 0], [1, 1, 0, 0], [0, 0, 0, 0, -1]):
+        n = len(v)
+        for gone in range(n):
+            for remover in sorted({gone, 0}):
+                for lead in (0, (gone + 1) % n):
+                    if lead == gone:
+                        continue
+                    for n_prio in (1, 0, -1):
+                        yield {'leg': 'shrink_then_churn', 'prios': v, 't': 0, 'n_prio': n_prio, 'steps': 5,
+                               'acts': [{'kind': 'remove', 'target': gone, 'actor': remover, 't': 0},
+                                        {'kind': 'addN', 'actor': lead, 't': 1}, {'kind': 'removeN', 'actor': lead, 't': 2},
+                                        {'kind': 'addN', 'actor': lead, 't': 3}]}
     # the acting system fails right after its action (the driver catches the error and carries on); what was removed
     # is registered again one or two timesteps later
     for v in ([1, 0], [1, 1], [0, 1, 0]) if tier == 'quick' else list(vectors(3)):
@@ -484,7 +498,66 @@ def chunk_fn(ctx, chunk):
 AMBIENT_LEGS = True
 
 
+def nested_case(case):
+    """A system removes a later system; another system then advances the SAME model from inside its turn (a nested
+    step), and the outer timestep carries on: whatever else such a step means, the removed system never runs again."""
+    reset_library()
+    model = new_model(seed=1)
+    log = []
+    depth = [0]
+
+    class Rec(Core.System):
+        def execute(self):
+            log.append((self.id, len(removed) > 0))
+
+    removed = []
+
+    class Remover(Rec):
+        def execute(self):
+            super().execute()
+            if self.model.systems.timestep == case['t'] and not removed:
+                self.model.systems.remove_system('victim')
+                removed.append(True)
+
+    class Stepper(Rec):
+        def execute(self):
+            super().execute()
+            if self.model.systems.timestep == case['t'] and depth[0] == 0:
+                depth[0] += 1
+                self.model.execute(case['inner'])
+                depth[0] -= 1
+    order = {'remover_first': [('remover', Remover, 5), ('stepper', Stepper, 4)],
+             'stepper_first': [('stepper', Stepper, 5), ('remover', Remover, 4)]}[case['order']]
+    for sid, cls, prio in order:
+        model.systems.add_system(cls(sid, model, priority=prio))
+    model.systems.add_system(Rec('victim', model, priority=case['victim_prio']))
+    model.systems.add_system(Rec('tail', model, priority=-9))
+    for _ in range(case['t'] + 2):
+        model.execute()
+    bad = [e for e in log if e == ('victim', True)]
+    if bad:
+        raise Violation(f'a system removed during timestep {case["t"]} ran afterwards (another system advanced the model from '
+                        f'inside its turn in that timestep: {case})', expected='never again', observed=log[-8:])
+    return len(log)
+
+
+def nested_cases():
+    for order in ('remover_first', 'stepper_first'):
+        for t in (0, 1):
+            for inner in (1, 2):
+                for vp in (6, 3, 0):
+                    yield {'leg': 'nested', 'order': order, 't': t, 'inner': inner, 'victim_prio': vp}
+
+
 def run(ctx):
+    for case in nested_cases():
+        ctx.traces += 1
+        try:
+            ctx.transitions += hbfs._guard(nested_case, case)
+        except Violation as v:
+            ctx.report(case, v)
+            return
+    ctx.leg('nested', note='a removal followed by a nested step of the same model inside the same timestep')
     cases = list(scenarios(ctx.tier))
     if ctx.small:
         cases = [c for c in cases if c['leg'] == 'one_action']
@@ -497,4 +570,7 @@ def run(ctx):
 
 
 def replay(case):
+    if case['leg'] == 'nested':
+        hbfs._guard(nested_case, case)
+        return
     hbfs._guard(run_scenario, case)
